@@ -461,6 +461,18 @@ impl<'c, 'a, 'ast> Visit<'ast> for BodyVisitor<'c, 'a> {
                 }
                 syn::visit::visit_expr_closure(self, c);
             }
+            Expr::Cast(c) => {
+                // R11: `(x as &T)` (a reborrow coercion, e.g. of `&mut self`) -> `&*x`; Verus rejects reference casts
+                if let syn::Type::Reference(tr) = &*c.ty {
+                    if tr.mutability.is_none() {
+                        let (s, e) = self.cx.f.range(c.span());
+                        let inner = self.cx.f.slice(c.expr.span()).to_string();
+                        self.cx.edit(s, e, format!("&*{}", inner), 0, "R11-reborrow-cast");
+                        return;
+                    }
+                }
+                syn::visit::visit_expr_cast(self, c);
+            }
             Expr::Unsafe(_) => die("unsafe block in extracted function"),
             _ => syn::visit::visit_expr(self, e),
         }
@@ -948,7 +960,7 @@ fn main() {
                 }
                 // assoc consts
                 let mut const_text = String::new();
-                for cn in &imd.consts {
+                for (cn, cspec) in &imd.consts {
                     let mut ok = false;
                     for im in &impls {
                         for ii in &im.items {
@@ -958,6 +970,16 @@ fn main() {
                                     let (s, e) = f.range(c.span());
                                     cx.attrs(&c.attrs, (s, e), &[]);
                                     cx.vis(&c.vis);
+                                    if !cspec.is_empty() {
+                                        // R12: `const X: T = e;` -> `exec const X: T <ensures> { e }` (Verus' form of a
+                                        // constant whose initialiser runs exec code and carries a postcondition)
+                                        let (ks, _) = f.range(c.const_token.span());
+                                        cx.edit(ks, ks, "exec ".to_string(), 0, "R12-exec-const");
+                                        let (qs, qe) = f.range(c.eq_token.span());
+                                        cx.edit(qs, qe, format!("\n{}\n    {{", cspec.join("\n")), 0, "R12-exec-const");
+                                        let (ss, se) = f.range(c.semi_token.span());
+                                        cx.edit(ss, se, " }".to_string(), 0, "R12-exec-const");
+                                    }
                                     let em = emit(f, s, e, &mut cx.edits);
                                     const_text.push_str("    ");
                                     const_text.push_str(&em.text);
